@@ -184,7 +184,7 @@ public:
 
         if constexpr (EpsilonRecursive == 0) {
             auto &level = levels.front();
-            auto it = std::upper_bound(level.keys.begin(), level.keys.begin() + level.size(), key);
+            auto it = std::upper_bound(level.keys.begin(), level.keys.begin() + level.size(), k);
             auto i = std::distance(level.keys.begin(), it) - 1;
             auto pos = std::min<size_t>(level(slopes_table, i, k), level.get_intercept(i + 1));
             auto lo = PGM_SUB_EPS(pos, Epsilon);
